@@ -46,6 +46,7 @@ def data_text(n_rows, cols):
 CONFIGS = {
     'target': dict(cols=['a', 'b', 'c'], over=dict(target_ranking_only='True', minibatch_size=8, subsampling=1, heuristic='MI-numba-randomized')),
     'pairwise': dict(cols=['a', 'b', 'c'], over=dict(target_ranking_only='False', minibatch_size=8, subsampling=1, heuristic='MI-numba-randomized')),
+    'capped5': dict(cols=['a', 'b', 'c'], over=dict(target_ranking_only='False', minibatch_size=8, subsampling=1, heuristic='MI-numba-randomized', combination_number_upper_bound=5)),
     'ratio': dict(cols=['a', 'b', 'c'], over=dict(target_ranking_only='True', minibatch_size=8, subsampling=1, heuristic='MI-numba-randomized', mi_stratified_sampling_ratio=0.5)),
     # scaled instance: the size constant of the coverage heuristic is set to 4 for this configuration, so that any size-triggered path is taken by the 8-row batches
     'coverage_scaled': dict(cols=['a', 'b', 'c'], over=dict(target_ranking_only='False', minibatch_size=8, subsampling=1, heuristic='max-value-coverage'), max_size=4),
@@ -168,7 +169,7 @@ CLI_CONFIGS = {
     'ratio': ('plain', ['--data_source', 'csv-raw', '--target_ranking_only', 'False', '--heuristic', 'MI-numba-randomized', '--mi_stratified_sampling_ratio', '0.6']),
     'subfeature_interactions': ('plain', ['--data_source', 'csv-raw', '--subfeature_mapping', 'a->b;c<->a', '--interaction_order', '2', '--feature_set_focus', 'a,b,c', '--target_ranking_only', 'True', '--heuristic', 'MI-numba-randomized']),
     'interactions_pearson': ('plain', ['--data_source', 'csv-raw', '--interaction_order', '2', '--target_ranking_only', 'True', '--heuristic', 'correlation-Pearson']),
-    'capped': ('plain', ['--data_source', 'csv-raw', '--target_ranking_only', 'False', '--heuristic', 'MI-numba-randomized', '--combination_number_upper_bound', '4', '--minibatch_size', '10']),
+    'capped': ('plain', ['--data_source', 'csv-raw', '--target_ranking_only', 'False', '--heuristic', 'MI-numba-randomized', '--combination_number_upper_bound', '5', '--minibatch_size', '10']),
     'subfeature_noise': ('plain', ['--data_source', 'csv-raw', '--subfeature_mapping', 'a->b', '--include_noise_baseline_features', 'True', '--target_ranking_only', 'True', '--heuristic', 'MI']),
 }
 
@@ -219,12 +220,16 @@ def run(ctx):
     jobs = []
     plan = []
     limit = 20000 if ctx.thorough else 1500
-    for cfg in ('target', 'ratio', 'coverage_scaled', 'noise', 'pairwise'):
+    bases = {}
+    for cfg in ('target', 'ratio', 'capped5', 'coverage_scaled', 'noise', 'pairwise'):
         for W in (1, 2, 3):
             res0 = base_or_violation(ctx, cfg, W)
             if res0 is None:
                 continue
             base, k, _ = res0
+            bases[(cfg, W)] = base
+            if W > 1 and (cfg, 1) in bases and bases[(cfg, 1)]['pairwise'] != base['pairwise']:
+                ctx.stats.violation({'kind': 'schedule', 'config': cfg, 'W': W, 'schedule': []}, f'{cfg}: the sequential result with a pool of {W} workers differs from the one-worker result', {'kind': 'pool_size_dependent', 'config': cfg})
             n_all = sum(1 for _ in itertools.islice(vpool.schedules(k, W), limit + 1))
             if n_all <= limit:
                 scheds = list(vpool.schedules(k, W))
@@ -266,7 +271,7 @@ def run(ctx):
     ctx.stats.sample({'kind': 'schedule', 'config': 'target', 'W': 3, 'schedule': [0, 1, 2, 0, 1, 1, 2, 0]})
     ctx.stats.sample({'kind': 'cli', 'config': 'focus', 'seed': 1, 'threads': 2, 'ref_seed': 0, 'ref_threads': 1})
     ctx.extra['virtual_pool_plan'] = [{'config': c, 'W': w, 'chunks': k, 'schedules': n, 'mode': m} for c, w, k, n, m in plan]
-    for cfg in ('target', 'ratio', 'coverage_scaled', 'pairwise', 'noise'):
+    for cfg in ('target', 'ratio', 'capped5', 'coverage_scaled', 'pairwise', 'noise'):
         if len(ctx.stats.sets['outcomes_' + cfg]) > 1 and not ctx.stats.violations:
             raise HarnessError('outcome count > 1 without violation')
 
